@@ -182,6 +182,32 @@ def single_pass_shortcut(prog, res):
     res.need(R, 3)
 
 
+def overlap_trim(prog, res):
+    """T3: the caller's input may overwrite, in place, bytes that the window still describes as its extDict (the streaming
+    input ring after it wrapped, or any buffer reused by the caller).  Every ZSTD_window_update that records new input
+    (writes window->nextSrc) must run the overlap test between that input and [dictBase+lowLimit, dictBase+dictLimit) before
+    it returns — on the contiguous path too: contiguous blocks after a wrap keep overwriting the old segment."""
+    R = "T3.overlap-trim-on-every-update"
+    f = prog.fn("ZSTD_window_update")
+    rec = f.find_roots(lambda x: x.get("k") == "asg" and strip_casts(x["lhs"]).get("k") == "mem" and strip_casts(x["lhs"]).get("f") == "nextSrc")
+    tests = []
+    for bid, cond, t, fl in f.branches():
+        fs = {y.get("f") for y in f.walk_deep(f.resolve_x(cond)) if y.get("k") == "mem"}
+        if "dictBase" in fs and ({"lowLimit", "dictLimit"} & fs):
+            tests += [(bid, t), (bid, fl)]
+    trims = f.find_roots(lambda x: x.get("k") == "asg" and strip_casts(x["lhs"]).get("k") == "mem" and strip_casts(x["lhs"]).get("f") == "lowLimit")
+    rets = [(b, i) for b, i, r in f.returns()]
+    res.check(bool(rec) and bool(tests) and bool(trims), R, "shape", f.loc, "input recorded at %d place(s), overlap test present" % len(rec),
+              "ZSTD_window_update: recorded-input writes %d, overlap tests %d" % (len(rec), len(tests) // 2))
+    if rec and tests:
+        ok = f.must_pass(via_edges=tests, starts=[(b, i + 1) for b, i in rec], targets=rets)
+        res.check(ok, R, "after-recording-input", f.loc, "no return after recording new input without the input/extDict overlap test",
+                  "ZSTD_window_update can return after recording new input without testing it against the extDict range: once the input ring "
+                  "has wrapped, contiguous blocks overwrite the old segment in place, lowLimit is not raised and matches are emitted against "
+                  "bytes that no longer exist (the frame decodes to other data)")
+    res.need(R, 2)
+
+
 def run(tier):
     res = Result("C02", tier)
     tus, info = extract(["compress", "decompress", "deprecated", "common"])
@@ -191,6 +217,7 @@ def run(tier):
     load_arms(prog, res)
     stage_expected_pairing(prog, res)
     window_update(prog, res)
+    overlap_trim(prog, res)
     zbuff_wrappers(prog, res)
     single_pass_shortcut(prog, res)
     from .C10 import staging_buffer          # shared clause: the staging buffer holds every unit the decoder can ask for
